@@ -23,12 +23,12 @@ ANCHORS = ["onl/packet/tcp_sink.py", "onl/packet/tcp_generator.py", "onl/utils/t
 RULE = ("sink: all sequences of <= 6 arrivals over 4 segments (exhaustive) + random sequences of 10-40 arrivals with "
         "odd sizes; sender: flows of N in {1,2,3,5,8(,12)} MSS segments x every drop pattern with <= 2 (quick) / <= 3 "
         "(thorough) drops over the first N+4 data and N+4 ACK transmission indices x {Reno, CUBIC} x path delays x initial "
-        "RTT estimates, plus random finite drop patterns on flows up to 200 segments; non-trivial = the pattern dropped at "
+        "RTT estimates, plus random finite drop patterns on flows up to 200 segments, flows ended by a finite finish_time (application-limited or cut short) with losses near the end, bursts losing one segment or its ACK 17-22 times in a row; non-trivial = the pattern dropped at "
         "least one packet that was actually transmitted (sender) / the sequence had a gap or duplicate (sink); distinct by case hash")
 ASSUMPTIONS = ["'keeps (re)transmitting until ...' (liveness) is decided as bounded progress: completion within 10^6 simulated "
                "seconds / 2*10^5 kernel steps after finitely many scripted faults",
                "paths are wires with constant delay; faults are drops and extra delays (which reorder) of single transmissions, by transmission index",
-               "flows have a finish_time (the sender's loop compares env.now with it)"]
+               "for a flow that ends by its finish_time 'the data' is what the sender has transmitted at least once (its next_seq) when the flow has ended"]
 EXHAUSTIVE = "sink arrival sequences of length <= 6 over 4 segments; patterns of <= 2 (quick) / <= 3 (thorough) drops, and of <= 2 extra delays (two magnitudes), over the first N+4 data and ACK transmission indices"
 FLOORS = {"quick": {"sink_acks_checked": 30000, "sink_sequences": 5000, "sender_runs": 2000, "sender_completed": 2000,
                     "faults_applied": 3000, "data_drops_applied": 1000, "ack_drops_applied": 1000, "delays_applied": 2000, "timeouts_seen": 1000,
